@@ -107,7 +107,7 @@ func (r *renewRig) checkSuccess(c rhp.ContractRevision, set rhp.TransactionSet, 
 		return "c16:contract-not-fully-signed|the returned renewed contract does not carry both valid signatures"
 	}
 	if !hostHonest {
-		return ""
+		return r.checkReturnedTxn(set.Transactions, h)
 	}
 	// mining the host's pool (which holds the renewal set) resolves the old contract into exactly the new one
 	L := r.u.Nodes[r.host.n.TipNode()].L
